@@ -306,7 +306,7 @@ func c17Data(c *Ctx) {
 							if z, isZ := constInt(ia.Index); isZ && z == 0 && name == "X" {
 								xOK = true
 							}
-							if bo, isBo := ia.Index.(*ssa.BinOp); isBo && bo.Op == token.ADD && name == "Y" && isRangeIndex(bo.X) {
+							if bo, isBo := ia.Index.(*ssa.BinOp); isBo && bo.Op == token.ADD && name == "Y" && rangeIndexValue(bo.X) && isConstOne(bo.Y) {
 								yOK = true
 							}
 						}
@@ -317,7 +317,7 @@ func c17Data(c *Ctx) {
 				if z, isZ := constInt(ia.Index); isZ && z == 0 && name == "X" {
 					xOK = true
 				}
-				if bo, isBo := ia.Index.(*ssa.BinOp); isBo && bo.Op == token.ADD && name == "Y" && isRangeIndex(bo.X) {
+				if bo, isBo := ia.Index.(*ssa.BinOp); isBo && bo.Op == token.ADD && name == "Y" && rangeIndexValue(bo.X) && isConstOne(bo.Y) {
 					yOK = true
 				}
 			})
@@ -459,4 +459,9 @@ func c17Labeler(c *Ctx) {
 		}
 	})
 	c.Check(ok, key, rule, "\"\" → OK, else ERROR", "the OK/ERROR split is not on Error == \"\"", c.fnAt(fn))
+}
+
+func isConstOne(v ssa.Value) bool {
+	one, ok := constInt(v)
+	return ok && one == 1
 }
